@@ -124,13 +124,13 @@ def observers(run, F, E):
 
 
 def run(run):
-    flow_rules.flow_obligations(run, {'C01.a', 'C01.c'})
+    run.guard('flow obligations', flow_rules.flow_obligations, run, {'C01.a', 'C01.c'})
     for c in facts.configs(run.tier):
         for v in facts.variants(run.tier):
             F = facts.load('w_core', c, v)
             E = effects.Effects(F)
             run.count('fact units')
-            who_may_call(run, F, E, 'C01.b', WHO_MAY_CALL)
+            run.guard('who may call', who_may_call, run, F, E, 'C01.b', WHO_MAY_CALL)
             # who may write registry.active directly
             for fn in F.fns:
                 direct = set()
@@ -141,20 +141,20 @@ def run(run):
                     ok = tk_short(fn) in {('C_', 'deepEnter'), ('C_', 'deepExit'), ('C_', 'deepChangeToRequested'), ('Registry', 'clear')}
                     run.ob('C01.b', '%s is an expected writer of registry.active' % fn.short, ok, where=fn.pat,
                            key='%s writes registry.active' % fn.short)
-            activation_pairing(run, F, E)
-            observers(run, F, E)
-            deactivation_resets(run, F, E, 'C01.b')
+            run.guard('activation pairing', activation_pairing, run, F, E)
+            run.guard('observers', observers, run, F, E)
+            run.guard('deactivation resets', deactivation_resets, run, F, E, 'C01.b')
             if facts.cfg_has(c, 'S'):
                 # the flow rule for load() takes the index it reads to be one a save() wrote (precondition A3). That rests on save()
                 # encoding exactly the activity state into a buffer it has cleared first: the writer/reader field tables and the
                 # clear-before-write rule of C12.a are therefore obligations of C01 as well
                 from rules import c12 as _c12
-                _c12.field_tables(run, F, E)
+                run.guard('field tables', _c12.field_tables, run, F, E)
                 run.relabel('C12.a', 'C01.f')
             facts.drop(F)
             cfgmod.clear_cache()
     from gen import static_units
-    static_units.must_not_compile(run, 'C01.c')
+    run.guard('must not compile', static_units.must_not_compile, run, 'C01.c')
     run.floor('C01.a', 200)
     run.floor('C01.b', 60)
     run.floor('C01.c', 20)
